@@ -158,6 +158,7 @@ def stateless (w : List String) : Option String :=
     | .resp rc => some s!"resp:{rc}"
     | .error e => some s!"err:{boolStr e.fatal}:{causeStr e.cause}"
   | "fail" :: "l3zone" :: _ => some "unmodelled"
+  | "fail" :: "l3shed" :: _ => some "unmodelled"
   | ["fail", "response", kind, rd, cd, udp, dobit, codes] => do
     let rd ← parseBool rd; let cd ← parseBool cd; let udp ← udp.toNat?; let dobit ← parseBool dobit
     let codes ← (parseCsv codes).mapM (·.toNat?)
